@@ -355,10 +355,59 @@ def run(ck):
     ck.sample({'ops': hs[-1]})
     ck.sample({'ops': hs[500]})
     ck.compare('midifile_ops', reqs, impl, ck.driver.run(reqs))
+    ck.evaluations += 1
+    ck.count('charset_histories')
+    f = charset_history_fail()
+    if f:
+        ck.oracle_fail({'scenario': 'charset history'}, f)
     return ck.finish(RULE, assumptions=['in-place mutation of message objects other than through setattr is not an edit route'])
 
 
+def charset_history_fail(rng=None):
+    """The charset of a file is part of its current contents: the same text saved under one charset, then (attribute reassigned,
+    or another file with the same text) under another, is written each time in the charset in force - judged against
+    str.encode(), not against another file of the same process."""
+    import mido
+    texts = ['caf\xe9 \xfcber', 'Pi\xe8ce n\xb0 1', '\xa9 2024 \xc5ngstr\xf6m', 'plain', 'na\xefve r\xe9sum\xe9']
+    orders = [('latin1', 'utf-8'), ('utf-8', 'latin1'), ('cp1252', 'utf-8', 'latin1'), ('utf-8', 'utf-16-le', 'utf-8')]
+    for kind, attr, tb in (('track_name', 'name', 0x03), ('text', 'text', 0x01), ('lyrics', 'text', 0x05)):
+        for txt in texts:
+            for order in orders:
+                for reuse in (True, False):
+                    mid = None
+                    for cs in order:
+                        try:
+                            payload = txt.encode(cs)
+                        except UnicodeError:
+                            continue
+                        if mid is None or not reuse:
+                            mid = mido.MidiFile(charset=cs, tracks=[mido.MidiTrack([mido.MetaMessage(kind, **{attr: txt}),
+                                                                               mido.Message('note_on', note=60, time=3)])])
+                        else:
+                            mid.charset = cs
+                        buf = io.BytesIO()
+                        try:
+                            mid.save(file=buf)
+                        except Exception as e:
+                            return (f'saving {kind} {txt!r} with charset {cs} (history {order}, {"the same file object" if reuse else "a new file"}) '
+                                    f'raised {type(e).__name__}: {e}')
+                        want = bytes([0xff, tb, len(payload)]) + payload
+                        if want not in buf.getvalue():
+                            return (f'{kind} {txt!r} saved with charset {cs} after the history {order} '
+                                    f'({"charset attribute reassigned" if reuse else "a new file each time"}): the file does not hold '
+                                    f'the text encoded in {cs} ({list(want)[:16]}...), it holds {list(buf.getvalue()[22:22 + len(want) + 6])}')
+                        try:
+                            back = mido.MidiFile(file=io.BytesIO(buf.getvalue()), charset=cs).tracks[0][0]
+                            if getattr(back, attr) != txt:
+                                return f'{kind} {txt!r} saved and loaded with charset {cs} after the history {order} comes back as {getattr(back, attr)!r}'
+                        except Exception as e:
+                            return f'loading {kind} {txt!r} saved with charset {cs} (history {order}) raised {type(e).__name__}: {e}'
+    return None
+
+
 def oracle(case):
+    if isinstance(case, dict) and case.get('scenario') == 'charset history':
+        return charset_history_fail()
     ops = [tuple(tuple(x) if isinstance(x, list) and x and not isinstance(x[0], list) else
                  ([tuple(y) for y in x] if isinstance(x, list) else x) for x in o) for o in case['ops']]
     return run_history(ops)[1]
